@@ -10,6 +10,7 @@ import (
 	"math"
 	"math/big"
 	"reflect"
+	"regexp"
 	"sort"
 	"strings"
 	"time"
@@ -785,6 +786,15 @@ func (r *Ref) evalCall(e *Expr, st State) (Val, error) {
 				return Val{}, evalErr("Trim takes no argument")
 			}
 			return vS(strings.TrimSpace(s)), nil
+		case "MatchString":
+			if err := wantStr(args, 1); err != nil {
+				return Val{}, err
+			}
+			m, err := regexp.MatchString(args[0].S, s)
+			if err != nil {
+				return Val{}, evalErr("MatchString: invalid pattern")
+			}
+			return vB(m), nil
 		case "Repeat":
 			if len(args) != 1 || args[0].K != TInt {
 				return Val{}, evalErr("Repeat requires 1 integer")
@@ -1004,6 +1014,10 @@ func (r *Ref) Apply(s *Stmt, st State, c *Control) error {
 	case "forget", "changed":
 		return nil
 	case "call":
+		if s.Call.Op == "call" && s.Call.Fn == "Note" {
+			// T.Note(x) takes anything (also a pointer to a fact) and does nothing
+			return nil
+		}
 		_, err := r.Eval(s.Call, st)
 		return err
 	}
